@@ -6,7 +6,7 @@ use crate::shim as kani;
 use core::cell::Cell;
 use daachorse::MatchKind;
 
-crate::lookup! { bw_find, bw_overlapping, bw_no_suffix, cw_find, cw_overlapping, cw_no_suffix }
+crate::lookup! { bw_find, bw_overlapping, bw_overlapping_full, bw_no_suffix, cw_find, cw_overlapping, cw_overlapping_full, cw_no_suffix }
 
 pub struct Src<'a, const L: usize> {
     data: [u8; L],
@@ -35,12 +35,12 @@ impl<const L: usize> Iterator for Src<'_, L> {
 }
 
 macro_rules! lazy_bw {
-    ($name:ident, $from_iter:ident, $slice:ident, $calls:literal) => {
+    ($name:ident, $from_iter:ident, $slice:ident, $calls:literal, $no:literal) => {
         // any() order: table (see i_bw::sym_table), h, len, slack
         #[cfg_attr(kani, kani::proof)]
         #[cfg_attr(kani, kani::unwind(6))]
         pub fn $name() {
-            let (pma, _raw, _rawo) = crate::i_bw::sym_table::<4, 2>(MatchKind::Standard, false);
+            let (pma, _raw, _rawo) = crate::i_bw::sym_table::<4, $no>(MatchKind::Standard, false);
             let (h, len) = crate::i_bw::sym_haystack::<2, 4>();
             let slack: usize = kani::any();
             let pulled = Cell::new(0usize);
@@ -70,17 +70,18 @@ macro_rules! lazy_bw {
         }
     };
 }
-lazy_bw!(bw_find, find_iter_from_iter, find_iter, 3);
-lazy_bw!(bw_overlapping, find_overlapping_iter_from_iter, find_overlapping_iter, 5);
-lazy_bw!(bw_no_suffix, find_overlapping_no_suffix_iter_from_iter, find_overlapping_no_suffix_iter, 3);
+lazy_bw!(bw_find, find_iter_from_iter, find_iter, 3, 2);
+lazy_bw!(bw_overlapping, find_overlapping_iter_from_iter, find_overlapping_iter, 3, 1);
+lazy_bw!(bw_overlapping_full, find_overlapping_iter_from_iter, find_overlapping_iter, 5, 2);
+lazy_bw!(bw_no_suffix, find_overlapping_no_suffix_iter_from_iter, find_overlapping_no_suffix_iter, 3, 2);
 
 macro_rules! lazy_cw {
-    ($name:ident, $from_iter:ident, $slice:ident, $calls:literal) => {
+    ($name:ident, $from_iter:ident, $slice:ident, $calls:literal, $no:literal) => {
         // any() order: table (see i_cw::sym_table), cs, n, slack
         #[cfg_attr(kani, kani::proof)]
         #[cfg_attr(kani, kani::unwind(6))]
         pub fn $name() {
-            let (pma, _raw, _rawo) = crate::i_cw::sym_table::<4, 2>(MatchKind::Standard);
+            let (pma, _raw, _rawo) = crate::i_cw::sym_table::<4, $no>(MatchKind::Standard);
             let (_cs, n, buf, ends) = crate::i_cw::sym_text::<2, 8>();
             let len = if n == 0 { 0 } else { ends[n - 1] };
             let slack: usize = kani::any();
@@ -112,6 +113,7 @@ macro_rules! lazy_cw {
         }
     };
 }
-lazy_cw!(cw_find, find_iter_from_iter, find_iter, 3);
-lazy_cw!(cw_overlapping, find_overlapping_iter_from_iter, find_overlapping_iter, 5);
-lazy_cw!(cw_no_suffix, find_overlapping_no_suffix_iter_from_iter, find_overlapping_no_suffix_iter, 3);
+lazy_cw!(cw_find, find_iter_from_iter, find_iter, 3, 2);
+lazy_cw!(cw_overlapping, find_overlapping_iter_from_iter, find_overlapping_iter, 3, 1);
+lazy_cw!(cw_overlapping_full, find_overlapping_iter_from_iter, find_overlapping_iter, 5, 2);
+lazy_cw!(cw_no_suffix, find_overlapping_no_suffix_iter_from_iter, find_overlapping_no_suffix_iter, 3, 2);
